@@ -7,7 +7,7 @@ import time
 
 HERE = os.path.dirname(os.path.abspath(__file__))
 VERIF = os.path.dirname(HERE)
-EVID = os.path.join(VERIF, "evidence")
+EVID = os.environ.get("VERIF_EVIDENCE_DIR") or os.path.join(VERIF, "evidence")   # override only for trying seeded changes
 REPLAYS = os.path.join(EVID, "replays")
 KNOWN = os.path.join(VERIF, "known_findings.json")
 
